@@ -620,7 +620,8 @@ func mergeStates(orig *State, base *flist, cond string, a, b *State) *State {
 	}
 	// variables
 	m.vars = map[types.Object]Val{}
-	for k, va := range a.vars {
+	for _, k := range sortedObjs(a.vars) { // deterministic numbering of the phi symbols
+		va := a.vars[k]
 		vb, ok := b.vars[k]
 		if !ok {
 			continue // declared in one branch only: out of scope afterwards
@@ -632,7 +633,13 @@ func mergeStates(orig *State, base *flist, cond string, a, b *State) *State {
 		m.vars[k] = mv
 	}
 	m.ghost = map[string]Val{}
-	for k, va := range a.ghost {
+	var gks []string
+	for k := range a.ghost {
+		gks = append(gks, k)
+	}
+	sort.Strings(gks)
+	for _, k := range gks {
+		va := a.ghost[k]
 		vb, ok := b.ghost[k]
 		if !ok {
 			if strings.HasPrefix(k, "$global") {
@@ -683,6 +690,20 @@ func mergeStates(orig *State, base *flist, cond string, a, b *State) *State {
 	m.defers = a.defers
 	m.locks = a.locks
 	return m
+}
+
+func sortedObjs(m map[types.Object]Val) []types.Object {
+	out := make([]types.Object, 0, len(m))
+	for k := range m {
+		out = append(out, k)
+	}
+	sort.Slice(out, func(i, j int) bool {
+		if out[i].Pos() != out[j].Pos() {
+			return out[i].Pos() < out[j].Pos()
+		}
+		return out[i].Name() < out[j].Name()
+	})
+	return out
 }
 
 func isDefinition(f string) bool { return defFacts[f] }
